@@ -107,6 +107,15 @@ def run_jobs(jobs, njobs, hs, tier):
     return results
 
 
+def _jsonable(o):
+    if isinstance(o, dict):
+        return {(k if isinstance(k, (str, int, float, bool)) or k is None else str(k)): _jsonable(v)
+                for k, v in o.items()}
+    if isinstance(o, (list, tuple)):
+        return [_jsonable(x) for x in o]
+    return o
+
+
 def src_hash(fn):
     try:
         fn = getattr(fn, 'fget', fn)
@@ -300,7 +309,7 @@ def main(argv=None):
         lab = re.sub(r'[^A-Za-z0-9_.-]+', '_', '%s-%s' % (v['harness'], v['label']))[:80]
         path = os.path.join(VERIF, 'replays', '%s-%s-%s.json' % (pid, lab, hsh))
         with open(path, 'w') as f:
-            json.dump({'property': pid, **v}, f, indent=1, default=str)
+            json.dump(_jsonable({'property': pid, **v}), f, indent=1, default=str)
         print("VIOLATION property=%s replay=%s" % (pid, path))
         print("  harness=%s label=%s case=%r\n  inputs=%s\n  observed: %s" % (
             v['harness'], v['label'], v['case'],
@@ -371,7 +380,7 @@ def main(argv=None):
         'violations': len(viol_new),
     }
     with open(os.path.join(VERIF, 'evidence', '%s.json' % pid), 'w') as f:
-        json.dump(ev, f, indent=1, default=str)
+        json.dump(_jsonable(ev), f, indent=1, default=str)
     print("%s %s: %d harness cases, %d paths, %d obligations (%d held), queries %r, "
           "solver %.1fs, twins %d/%d, wall %.1fs -> exit %d" % (
               pid, args.tier, len([r for r in results if r.get('twin') is None]), paths, n_obl,
